@@ -27,7 +27,7 @@ class C14h_RealFloat___gt__(Contract):
     properties = ['C14']
     # path-queries the solvers leave undecided (rescaling both sides of an inequality by 2^(e0-G)) fall back
     # to a bounded check (exponents / widths <= 10), reported as bounded
-    options = {'bounded_fallback': 10, 'bounded_ms': 30000}
+    options = {'local': 'contracts.c14', 'bounded_fallback': 10, 'bounded_ms': 30000}
 
     def post(self, other, result):
         G = ghost('grid', 0)
@@ -45,7 +45,7 @@ class C14h_RealFloat___lt__(Contract):
     properties = ['C14']
     # path-queries the solvers leave undecided (rescaling both sides of an inequality by 2^(e0-G)) fall back
     # to a bounded check (exponents / widths <= 10), reported as bounded
-    options = {'bounded_fallback': 10, 'bounded_ms': 30000}
+    options = {'local': 'contracts.c14', 'bounded_fallback': 10, 'bounded_ms': 30000}
 
     def post(self, other, result):
         G = ghost('grid', 0)
@@ -63,7 +63,7 @@ class C14h_RealFloat___ge__(Contract):
     properties = ['C14']
     # path-queries the solvers leave undecided (rescaling both sides of an inequality by 2^(e0-G)) fall back
     # to a bounded check (exponents / widths <= 10), reported as bounded
-    options = {'bounded_fallback': 10, 'bounded_ms': 30000}
+    options = {'local': 'contracts.c14', 'bounded_fallback': 10, 'bounded_ms': 30000}
 
     def post(self, other, result):
         G = ghost('grid', 0)
@@ -81,7 +81,7 @@ class C14h_RealFloat___le__(Contract):
     properties = ['C14']
     # path-queries the solvers leave undecided (rescaling both sides of an inequality by 2^(e0-G)) fall back
     # to a bounded check (exponents / widths <= 10), reported as bounded
-    options = {'bounded_fallback': 10, 'bounded_ms': 30000}
+    options = {'local': 'contracts.c14', 'bounded_fallback': 10, 'bounded_ms': 30000}
 
     def post(self, other, result):
         G = ghost('grid', 0)
@@ -100,7 +100,7 @@ class C14h_RealFloat___add__(Contract):
     params = {'self': 'RealFloat', 'other': 'RealFloat'}
     returns = 'RealFloat'
     properties = ['C14']
-    options = {'bounded_fallback': 10, 'bounded_ms': 30000}
+    options = {'local': 'contracts.c14', 'bounded_fallback': 10, 'bounded_ms': 30000}
 
     def post(self, other, result):
         G = ghost('grid', 0)
@@ -127,6 +127,7 @@ class C14h_RealFloat___neg__(Contract):
     params = {'self': 'RealFloat'}
     returns = 'RealFloat'
     properties = ['C14']
+    options = {'local': 'contracts.c14'}
 
     def post(self, result):
         return {'s': result._s == (not self._s), 'exp': result._exp == self._exp, 'c': result._c == self._c,
@@ -141,6 +142,7 @@ class C14h_RealFloat___abs__(Contract):
     params = {'self': 'RealFloat'}
     returns = 'RealFloat'
     properties = ['C14']
+    options = {'local': 'contracts.c14'}
 
     def post(self, result):
         return {'s': result._s == False, 'exp': result._exp == self._exp, 'c': result._c == self._c,
